@@ -237,15 +237,23 @@ F_C07_step(cfg, pre, post) ==
                    (IF s.f = 1 THEN mine[1].se = CuOf(pre, s.i).se /\ mine[1].tb = post.now - CuOf(pre, s.i).se
                     ELSE mine[1].tb = 0))
 
+\* the queue of customers blocked towards d is exactly the set of customers blocked towards d (book-keeping that the
+\* FIFO unblocking rule rests on); checked in every configuration without priority pre-emption, pre-emptive
+\* schedules included
+BlockedQueueOk(S) ==
+    \A d \in 1..NN(S) :
+        LET bq == S.nodes[d].bq
+        IN NoDup(bq) /\ S.nodes[d].lbq = Len(bq)
+           /\ Range(bq) = {<<S.cu[j].loc, S.cu[j].id>> : j \in {a \in DOMAIN S.cu : S.cu[a].blk /\ S.cu[a].dest = d}}
+
 F_C07_inv(cfg, S) ==
-    IF ~Dom_C07(cfg) THEN {}
+    IF ~Dom_C07(cfg)
+    THEN (IF HasPriorityPreempt(cfg) \/ HasReroute(cfg) THEN {}
+          ELSE Chk("C07.blocked-queue-is-blocked-set", BlockedQueueOk(S)))
     ELSE
     Chk("C07.never-blocked-while-space", \A d \in 1..NN(S) :
             S.nodes[d].bq # <<>> => S.nodes[d].count >= S.nodes[d].cap)
-    \cup Chk("C07.blocked-queue-is-blocked-set", \A d \in 1..NN(S) :
-            LET bq == S.nodes[d].bq
-            IN NoDup(bq) /\ S.nodes[d].lbq = Len(bq)
-               /\ Range(bq) = {<<S.cu[j].loc, S.cu[j].id>> : j \in {a \in DOMAIN S.cu : S.cu[a].blk /\ S.cu[a].dest = d}})
+    \cup Chk("C07.blocked-queue-is-blocked-set", BlockedQueueOk(S))
     \cup Chk("C07.blocked-has-finished", \A j \in DOMAIN S.cu :
             S.cu[j].blk => S.cu[j].se # NONE /\ S.cu[j].se <= S.now /\ S.cu[j].dest \in 1..NN(S))
 
